@@ -209,6 +209,8 @@ func TestVerifC28(t *testing.T) { //nolint:gocyclo,cyclop,maintidx
 		"a sequence is non-trivial when it contains a sample split into ≥ 2 packets AND a duration that is not a whole number of ticks; distinct by codec+origin+hash of the sample list")
 	defer run.Finish()
 
+	run.Assume("a single step (sample duration, or PrevDroppedPackets × duration) stays below 2^32 ticks: beyond that the code's float64→uint32 conversion is " +
+		"platform-defined in Go (wraps mod 2^32 on amd64, probed); non-negative durations only")
 	codecs := c28DefaultCodecs(t)
 	if len(codecs) < 5 {
 		t.Fatalf("only %d default codecs with a payloader", len(codecs))
@@ -327,7 +329,7 @@ func TestVerifC28(t *testing.T) { //nolint:gocyclo,cyclop,maintidx
 		// model
 		total := new(big.Int) // Σ dur_ns·rate, denominator 1e9
 		tsKnown, seqKnown := fixedTS, fixedSeq
-		tsOrigin := ts0  // timestamp at total = 0
+		tsOrigin := ts0 // timestamp at total = 0
 		nextSeq := seq0 // next sequence number to be used
 		var multi, fractional, anyDrop, anyEmpty, wrapTS, wrapSeq bool
 		var dropSinceObs, emptySinceObs bool // what happened since the last sample whose packets were observed
